@@ -245,6 +245,56 @@ func (r *rwRT) ruleTmplConsumer() {
 			}
 		}
 	}
+	r.ruleTmplConsumerNoVar()
+}
+
+// the loop without a variable: `for range g { body }` is valid Go (the source ranges over a channel type) and
+// needs no binding at all: `for it := g; it.MoveNext(); { body }`.
+func (r *rwRT) ruleTmplConsumerNoVar() {
+	c := r.c
+	fn := r.method("rewriter", "rewriteForRange")
+	c.fn(relName(fn))
+	pos := r.w.FnPos(fn)
+	st := newState()
+	bodyRef, _ := r.heapNode(st, "BlockStmt", map[string]AV{"List": leafSym("fr.Body.List")})
+	operand := Dyn{T: r.astPtr("CallExpr"), V: leafSym("fr.X")}
+	frRef, _ := r.heapNode(st, "RangeStmt", map[string]AV{"Key": Nil{}, "Value": Nil{}, "Tok": r.tokConst("ILLEGAL"), "X": operand, "Body": bodyRef})
+	in := r.interp(rwConfig{root: fn})
+	outs := in.Run(st, fn, []AV{Sym{Name: "r", NN: true}, Sym{Name: "pkg", NN: true}, frRef}, nil)
+	r.account(in)
+	construct := "for range <CallExpr> (no loop variable)"
+	var live []Outcome
+	for _, o := range outs {
+		if !o.Panicked {
+			live = append(live, o)
+		}
+	}
+	if len(live) == 0 {
+		c.bad("RW.TMPL.CONSUMER", construct, pos, "a consumer loop without a loop variable (`for range g() { … }`, valid Go) is rejected on every path: the compiler ends in an assertion")
+		return
+	}
+	var firstErr error
+	shown := ""
+	for _, o := range live {
+		it := pBind{"it", pAny{}}
+		want := nd("ForStmt", map[string]Pat{
+			"Init": nd("AssignStmt", map[string]Pat{"Lhs": lst(it), "Tok": pTok{r.tokConst("DEFINE")}, "Rhs": lst(pLeaf{"fr.X"})}),
+			"Cond": pMethodCall(pSame{"it"}, "MoveNext"),
+			"Body": pOr{[]Pat{nd("BlockStmt", map[string]Pat{"List": lst(pSpread{"fr.Body.List"})}), pVal{bodyRef}, nd("BlockStmt", map[string]Pat{"List": lst(pVal{bodyRef})})}},
+		})
+		err := matchTmpl(o.St, o.Ret[0], want)
+		if err == nil && countLeaf(o.St, o.Ret[0], "fr.X") != 1 {
+			err = fmt.Errorf("range operand occurs %d times in the lowered loop", countLeaf(o.St, o.Ret[0], "fr.X"))
+		}
+		if err != nil && firstErr == nil {
+			firstErr, shown = err, o.St.Render(o.Ret[0])
+		}
+	}
+	if firstErr == nil {
+		c.ok("RW.TMPL.CONSUMER", construct, pos, "for it := <operand>; it.MoveNext(); { body }: operand once, one MoveNext per iteration, no binding")
+	} else {
+		c.bad("RW.TMPL.CONSUMER", construct, pos, "consumer loop lowering has the wrong shape: "+firstErr.Error(), shown)
+	}
 }
 
 // ------------------------------------------------------------------ RW.TMPL.YIELDFROM
